@@ -17,6 +17,11 @@ META = {
                   "produce the same file (token + length) as into a fresh location; listings are compared with the library view per output-format option (mpq list plain/--long/"
                   "--filter, wdt tiles text/csv/json, dbc export json/csv row counts) over name classes {lower, UPPER, MiXed, nested, with spaces, non-ASCII}; validate flags "
                   "(blp --strict, wdl --version) are exercised on files that violate only the flag's rule, the library being asked per flag. "
+                  "Round 6: `--filter` of mpq list / tree is compared with the library's names filtered by the spec's own glob matcher (Cli.tla GlobMatch; 7 pattern shapes over names "
+                  "with near-misses); every sub-command that goes through the library entry point the reference verdict is taken from (info, tree, skin-info, anim-info, "
+                  "blp-info of the format families) must fail on any damage that entry point rejects, wherever it is (header intact / body truncated, string block cut, ...); "
+                  "every convert sub-command also runs as an identity conversion (from == to, an alias of the source version, auto-detected == target); the numeric selector "
+                  "`blp convert --mipmap-level` runs at 0, the last stored level, one past it and 1000000 (out of range => exit != 0; in range => PNG dimensions = the library's for that level). "
                   "Round 5: the GLOBAL options (-q, -v, -vv) are a dimension of every sub-command (one succeeding and one failing run each, and half of the pipeline sample); "
                   "bulk mpq commands run on archives of 11/26/999/1000/1001/2001 tiny files (thorough: up to 10001) around the window / batch constants; `mpq rebuild` is judged "
                   "against the library on a source holding plain, encrypted, fix-key, multi-sector and special files with default flags, --verify and --skip-encrypted. "
